@@ -84,6 +84,8 @@ CONTAINER_FUNCS = {"zip", "enumerate", "list", "tuple", "reversed", "sorted", "i
                    "dict", "chain", "defaultdict", "deque"}
 NONRAISING_METHODS = {"to", "detach", "clone", "size", "dim", "numel", "append", "extend", "items", "keys", "values"}
 NONRAISING_FUNCS = {"len", "range", "isinstance", "super"}
+# function spellings of the arithmetic operators (a + b == torch.add(a, b)): same classification as ast.BinOp
+ARITH_FUNCS = {"add", "sub", "subtract", "mul", "multiply", "div", "divide", "true_divide", "neg", "negative"}
 FORBIDDEN_CALLS = {"getattr", "setattr", "delattr", "exec", "eval", "vars", "globals", "locals", "__import__"}
 LIST_MUTATORS = {"append", "extend", "insert"}
 LIST_SHRINKERS = {"pop", "clear", "remove", "reverse", "sort"}
@@ -509,6 +511,9 @@ class Walker:
             r = self.mi.resolve_func(name)
             if r is not None:
                 return self.apply_summary(c, r, args, kws)
+        if (isinstance(f, ast.Attribute) and isinstance(f.value, ast.Name) and f.value.id == "torch"
+                and name in ARITH_FUNCS and not c.keywords and len(c.args) in (1, 2)):
+            return FRESH           # torch.add(a, b) is the function spelling of a + b: classified like the operator
         if name not in NONRAISING_FUNCS:
             self.may_raise(c, self.call_label(c))
         if name in CONTAINER_FUNCS:
